@@ -9,8 +9,10 @@ import (
 	"path/filepath"
 	"regexp"
 	"runtime"
+	"strconv"
 	"strings"
 	"sync"
+	"syscall"
 	"time"
 )
 
@@ -20,6 +22,7 @@ type SolverCfg struct {
 	WorkDir      string
 	CrossCheck   bool // re-prove discharged obligations on a second back end
 	Jobs         int
+	Sequential   bool                   // one solver process at a time (the retry phase: nothing competes with the query)
 	Expect       func(name string) bool // obligations the lock expects to be discharged: retried with a longer timeout before they are reported undecided
 }
 
@@ -329,7 +332,16 @@ var solvers = []struct {
 
 // procSem bounds the number of solver processes that run at the same time (one per core): a query's timeout then measures
 // solver time, not time spent waiting for a core.
-var procSem = make(chan struct{}, runtime.NumCPU())
+var procSem = make(chan struct{}, solverProcs())
+
+// solverProcs: how many solver processes may run at once (one per core; GOVC_PROCS overrides). More would make a
+// query's timeout measure waiting rather than solving.
+func solverProcs() int {
+	if v, err := strconv.Atoi(os.Getenv("GOVC_PROCS")); err == nil && v > 0 {
+		return v
+	}
+	return runtime.NumCPU()
+}
 
 func runSolver(ctx context.Context, bin string, args []string, file string, timeout time.Duration) (string, error) {
 	select {
@@ -348,6 +360,8 @@ func runSolver(ctx context.Context, bin string, args []string, file string, time
 	cmd.Stdout = &out
 	cmd.Stderr = &out
 	cmd.WaitDelay = 2 * time.Second
+	// the solver dies with this process (a killed or timed-out check must not leave solvers running)
+	cmd.SysProcAttr = &syscall.SysProcAttr{Pdeathsig: syscall.SIGKILL}
 	err := cmd.Run()
 	if cctx.Err() == context.DeadlineExceeded {
 		return out.String(), fmt.Errorf("timeout")
@@ -445,7 +459,8 @@ func solveFunction(fc *FnCtx, cfg SolverCfg) {
 		for _, o := range pending {
 			if o.Verdict == "undecided" && cfg.Expect(o.Name()) {
 				long := cfg
-				long.QueryTimeout = 12 * cfg.QueryTimeout
+				long.QueryTimeout = 6 * cfg.QueryTimeout
+				long.Sequential = true
 				portfolio(fc, o, dir, long, usesLambda)
 				if o.Verdict == "discharged" {
 					o.Solver += "(retry)"
@@ -477,8 +492,19 @@ func portfolio(fc *FnCtx, o *Obligation, dir string, cfg SolverCfg, usesLambda b
 	defer cancel()
 	ch := make(chan res, 2*len(solvers))
 	n := 0
+	type job struct {
+		name, bin string
+		args      []string
+		f         string
+		sliced    bool
+	}
+	var seq []job
 	launch := func(name, bin string, args []string, f string, sliced bool) {
 		n++
+		if cfg.Sequential {
+			seq = append(seq, job{name, bin, args, f, sliced})
+			return
+		}
 		go func() {
 			t0 := time.Now()
 			out, _ := runSolver(ctx, bin, args, f, cfg.QueryTimeout)
@@ -501,6 +527,43 @@ func portfolio(fc *FnCtx, o *Obligation, dir string, cfg SolverCfg, usesLambda b
 		for _, sv := range solvers[:2] {
 			launch(sv.name+"(sliced)", sv.bin, sv.args, sfile, true)
 		}
+	}
+	if cfg.Sequential {
+		// two processes at a time (more slow each other down badly on the target machine), full and sliced queries
+		// interleaved; stop at the first definite answer
+		var ordered []job
+		var fulls, sls []job
+		for _, j := range seq {
+			if j.sliced {
+				sls = append(sls, j)
+			} else {
+				fulls = append(fulls, j)
+			}
+		}
+		for i := 0; i < len(fulls) || i < len(sls); i++ {
+			if i < len(fulls) {
+				ordered = append(ordered, fulls[i])
+			}
+			if k := len(sls) - 1 - i; k >= 0 && i < len(sls) {
+				ordered = append(ordered, sls[k])
+			}
+		}
+		sem2 := make(chan struct{}, 2)
+		go func() {
+			for _, j := range ordered {
+				sem2 <- struct{}{}
+				go func(j job) {
+					defer func() { <-sem2 }()
+					if ctx.Err() != nil {
+						ch <- res{j.name, "cancelled", "", 0, j.sliced}
+						return
+					}
+					t0 := time.Now()
+					out, _ := runSolver(ctx, j.bin, j.args, j.f, cfg.QueryTimeout)
+					ch <- res{j.name, firstVerdict(out), out, time.Since(t0).Seconds(), j.sliced}
+				}(j)
+			}
+		}()
 	}
 	var outs []string
 	o.Verdict = "undecided"
